@@ -36,6 +36,10 @@ func init() {
 		Assumptions: []string{"sort.Slice orders the slice consistently with a strict weak order"},
 		Run:         runC12,
 		Mutants: []Mutant{
+			{Name: "merge-reads-runs-from-an-unbuffered-file", File: "lintcmd/cmd.go", Rule: "R12.7", KeyPart: "decodeGob::reader-shared-by-successive-gob-decoders-is-a-ByteReader",
+				Old: "\t\t\t\tbr := bufio.NewReader(f)\n\t\t\t\treturn decodeGob(br)\n", New: "\t\t\t\treturn decodeGob(f)\n",
+				More: []Edit{{File: "lintcmd/cmd.go", Old: "func decodeGob(br io.ByteReader) ([]run, error) {", New: "func decodeGob(br io.Reader) ([]run, error) {"},
+					{File: "lintcmd/cmd.go", Old: "gob.NewDecoder(br.(io.Reader)).Decode(&res)", New: "gob.NewDecoder(br).Decode(&res)"}}},
 			{Name: "build-name-skipped-by-suffix-test", File: "lintcmd/cmd.go", Rule: "R12.6", KeyPart: "same-descriptor-records-build-name",
 				Old: "\t\t\t\t\tbuilds[len(filtered)-1][diag.BuildName] = struct{}{}\n\t\t\t\t} else {", New: "\t\t\t\t\tif !strings.HasSuffix(filtered[len(filtered)-1].BuildName, diag.BuildName) {\n\t\t\t\t\t\tbuilds[len(filtered)-1][diag.BuildName] = struct{}{}\n\t\t\t\t\t}\n\t\t\t\t} else {"},
 			{Name: "buildname-before-category", File: "lintcmd/cmd.go", Rule: "R12.1", KeyPart: "comparator",
@@ -651,6 +655,100 @@ func runC12(c *Ctx) {
 			}
 		})
 		c.Check(FuncKey(pd)+"::kept-problem-gets-the-recorded-names", pd.Pos(), joined, "the kept problem's BuildName is rebuilt from the recorded names")
+	})
+	// R12.7: the binary format is a concatenation of independent gob streams,
+	// one per run, read back by one decoder per run from the SAME reader. A
+	// gob.Decoder wraps a reader that is not an io.ByteReader in a private
+	// bufio.Reader, which reads ahead: the next decoder then starts in the
+	// middle of the stream (or at EOF) and later runs are silently lost. Every
+	// reader that reaches a decoder created in a loop must therefore implement
+	// io.ByteReader.
+	c.Rule("R12.7", func() {
+		c.Floor("R12.7", 1)
+		n := 0
+		hasReadByte := func(t types.Type) bool {
+			ms := types.NewMethodSet(t)
+			for i := 0; i < ms.Len(); i++ {
+				if ms.At(i).Obj().Name() == "ReadByte" {
+					return true
+				}
+			}
+			return false
+		}
+		// concrete types that can reach value v (an interface), following parameters to the module's call sites
+		var origins func(v ssa.Value, depth int, seen map[ssa.Value]bool) (concrete []types.Type, unknown []string)
+		origins = func(v ssa.Value, depth int, seen map[ssa.Value]bool) ([]types.Type, []string) {
+			var conc []types.Type
+			var unk []string
+			for x := range BackSlice(v, SliceOpts{}) {
+				if seen[x] {
+					continue
+				}
+				seen[x] = true
+				switch x := x.(type) {
+				case *ssa.MakeInterface:
+					conc = append(conc, x.X.Type())
+				case *ssa.Parameter:
+					if !types.IsInterface(x.Type()) {
+						continue
+					}
+					fn := x.Parent()
+					idx := -1
+					for i, p := range fn.Params {
+						if p == x {
+							idx = i
+						}
+					}
+					sites := 0
+					if depth < 3 {
+						for _, caller := range c.ModuleFuncs() {
+							for _, ci := range Calls(caller, false) {
+								if ci.Common().StaticCallee() == fn && idx < len(ci.Common().Args) {
+									sites++
+									c2, u2 := origins(ci.Common().Args[idx], depth+1, seen)
+									conc = append(conc, c2...)
+									unk = append(unk, u2...)
+								}
+							}
+						}
+					}
+					if sites == 0 {
+						unk = append(unk, "parameter "+x.Name()+" of "+fn.String()+" (no call site found)")
+					}
+				case *ssa.Call:
+					if types.IsInterface(x.Type()) {
+						unk = append(unk, "result of "+CalleeName(&x.Call))
+					} else if _, isTuple := x.Type().(*types.Tuple); !isTuple {
+						// a concrete result used directly (bufio.NewReader(...)) is seen through MakeInterface
+					}
+				}
+			}
+			return conc, unk
+		}
+		for _, fn := range c.ModuleFuncs() {
+			if FuncPkgPath(fn) != lintcmdPkg {
+				continue
+			}
+			for _, ci := range CallsTo(fn, false, "encoding/gob.NewDecoder") {
+				if !ReachesFrom(fn, ci, ci) {
+					continue // a single decoder for the whole stream
+				}
+				n++
+				arg := ci.Common().Args[0]
+				conc, unk := origins(arg, 0, map[ssa.Value]bool{})
+				var bad []string
+				for _, t := range conc {
+					if !hasReadByte(t) {
+						bad = append(bad, TypeString(t))
+					}
+				}
+				ok := len(bad) == 0 && len(unk) == 0 && len(conc) > 0
+				c.Check(FuncKey(fn)+"::reader-shared-by-successive-gob-decoders-is-a-ByteReader", ci.Pos(), ok, "one gob.Decoder per run is created on the same reader; unless the reader implements io.ByteReader each decoder buffers ahead privately and the following runs of the stream are lost (readers without ReadByte: %v; undetermined: %v)", bad, unk)
+			}
+		}
+		if n == 0 {
+			c.Undecided("no gob.NewDecoder call in a loop found in lintcmd (the per-run decoding of -merge input)")
+		}
 	})
 	_ = lp
 }
